@@ -200,6 +200,15 @@ def r_acceptance(ck: Checker) -> None:
     reg = [c for c in attr_calls(func, "update") if unparse(c.func.value).startswith("agg_conditions[")]  # type: ignore[attr-defined]
     ok = len(reg) == 1 and unparse(reg[0].func.value) == "agg_conditions[blit.sign]" and unparse(reg[0].args[0]) == "conditions_of_body_agg(blit.atom)"  # type: ignore[attr-defined]
     ck.add("conditions are filed under the sign of their literal", ok, func, reg[0] if reg else func.node, f"`{fmt(reg[0]) if reg else None}`", "")
+    cba = ck.func("utils.ast:conditions_of_body_agg")
+    contrib = contributions(cba, "ret")
+    agg_p = cba.params()[0]
+    okc = len(contrib) == 1 and (same(contrib[0][1], f"[c for e in {agg_p}.elements if e.condition for c in e.condition]") or same(contrib[0][1], f"[c for e in {agg_p}.elements for c in e.condition]"))
+    if not okc and len(contrib) == 1:
+        lpc = enclosing_loop(cba, contrib[0][0])
+        okc = lpc is not None and unparse(lpc.iter) == f"{agg_p}.elements" and contrib[0][1] == f"{unparse(lpc.target)}.condition"
+    ck.add("the conditions of an aggregate are its condition LITERALS (sign included)", okc, cba, contrib[0][0] if contrib else cba.node, f"collects `{[c for _, c in contrib]}`",
+           "the sign of the rebuilt aggregate is chosen by subset tests on these literals: with bare atoms `not b(I)` and `b(I)` are the same condition, and a `not not` aggregate is re-attached positively (an answer set is lost as unfounded)")
 
 
 def r_simplify(ck: Checker) -> None:
@@ -304,6 +313,30 @@ def r_merge(ck: Checker) -> None:
     ck.add("a factor scales the weight (first term) of every element only", len(scaled) == 1 and unparse(scaled[0].value).replace(" ", "") == "BinaryOperation(LOC,BinaryOperator.Multiplication,newterms[0],factor)", mul, mul.node, f"`{fmt(scaled[0]) if scaled else None}`", "")  # type: ignore[attr-defined]
     rs = [r for r in find_nodes(mul.node, lambda n: isinstance(n, ast.Raise))]
     ck.add("products of two aggregates and of min/max aggregates are refused", len(rs) == 2, mul, mul.node, f"{len(rs)} refusals", "")
+    lc = ck.func(f"{G}.least_common")
+    itl = ck.interp(lc)
+    r1, r2 = lc.params()[1:3]
+    n_lc = 0
+    for r_, st_ in itl.returns:
+        if r_.value is None or is_const(r_.value, None):
+            continue
+        n_lc += 1
+        txt = unparse(itl.expand(r_.value, st_)).replace(" ", "")
+        m_ = re.fullmatch(r"\(int\(lcm\((\w+)\[(\w+)\],(\w+)\[\2\]\)/\1\[\2\]\),int\(lcm\(\1\[\2\],\3\[\2\]\)/\3\[\2\]\)\)", txt)
+        ck.add("scaling factors are lcm/coefficient for either relation", m_ is not None and m_.group(1) == r1 and m_.group(3) == r2, lc, r_, f"returns `{short(txt, 120)}`",
+               "two guards on `2*X` and `3*X` are brought to `6*X` by the factors 3 and 2; coefficient/lcm is 0 for both and the merged guard collapses to `0 op 0 op 0`")
+    ck.need(n_lc >= 2, "least_common returns factor pairs")
+    d2 = ck.func(f"{G}.double_relation2ast")
+    lhs_, opl_, mid_, opr_, rhs_ = d2.params()[1:6]
+    itd2 = ck.interp(d2, Pins.of(facts={f"self.is_const({mid_})": True}))
+    halves = [c for c in resolved_calls(ck.prg, d2, f"ngo.{G}.relation2ast") if itd2.reachable(c)]
+    ck.need(len(halves) == 2, "double_relation2ast drops a constant half at two sites")
+    for c in halves:
+        a = [unparse(x) for x in c.args]
+        want = f"compare(int({lhs_}), {opl_}, int({mid_}))" if a == [mid_, opr_, rhs_] else (f"compare(int({mid_}), {opr_}, int({rhs_}))" if a == [lhs_, opl_, mid_] else "?")
+        okd = want != "?" and itd2.holds(c, want)
+        ck.add("a constant half of `l op m op r` is dropped only if it holds", okd, d2, c, f"`{fmt(c)}` dominated by `{want}`: {okd}",
+               "`2 < 7` and `2 > 3` merged into `3 < 2 < 7`: the half `3 < 2` is false, so the literal is #false; returning only the other half makes the body literal `#true`")
     for sc in scaled:
         okq = itm.holds(sc, "collector.function not in (AggregateFunction.Min, AggregateFunction.Max)")
         ck.add("weights of a #min/#max aggregate are never scaled", okq, mul, sc, f"`{fmt(sc)}` dominated by `collector.function not in (Min, Max)`: {okq}",
